@@ -70,6 +70,9 @@ type ttyCase struct {
 	Scrollback uint32  `json:"scrollback"`
 	Tab        uint8   `json:"tab"`
 	Ops        []ttyOp `json:"ops"`
+	// Pre (C18): states the terminal is put into before it is attached to its first console
+	// (true = active); it is inactive again when the console is attached, as in the kernel
+	Pre []bool `json:"pre,omitempty"`
 }
 
 func (op ttyOp) bytes() []byte {
